@@ -12,6 +12,8 @@ Direct oracle (Python, on the implementation's observations, independent of the 
 from __future__ import annotations
 
 import json
+
+import common
 import math
 from collections import Counter
 from fractions import Fraction
@@ -548,7 +550,7 @@ def generate(chk):
     rng = chk.rng
     quick = chk.tier == "quick"
     cases = []
-    corpus = chk.case_dir.parents[2] / "corpus" / "C15"
+    corpus = common.CORPUS / "C15"
     for f in sorted(corpus.glob("*.json")):
         cases.append(json.loads(f.read_text())["case"])
     # (i) lattice, exhaustive
